@@ -80,6 +80,8 @@ for k3, v3 in r3rec.get('late_sample', {}).items():
     fp[k3] = v3
 for k4, v4 in json.load(open(V + '/records/round4_breaking_first_pass.json'))['first_pass'].items():
     fp[k4] = v4
+for k5, v5 in json.load(open(V + '/records/round5_breaking_first_pass.json'))['first_pass'].items():
+    fp[k5] = v5
 mrows = ['| change | what it does | first pass | reported by (after tuning) |', '|--------|--------------|------------|---------------------------|']
 own = other = missed = 0
 for e in sorted(exps, key=keyf):
